@@ -968,7 +968,18 @@ fn codegen_router(ops: &Operations, rust_types: &RustTypes) {
                                 (true, false) => {
                                     let tag = route.query_tag.as_deref().unwrap();
 
-                                    g!("if qs.has(\"{tag}\") {{");
+                                    // Two operations may share a tag (`GET /bucket?analytics&id=..` gets one
+                                    // configuration, `GET /bucket?analytics` lists them): the one that requires
+                                    // further query strings comes first and must ask for them.
+                                    let tag_is_shared = group.iter().filter(|r| r.query_tag.as_deref() == Some(tag)).count() > 1;
+                                    let mut cond = f!("qs.has(\"{tag}\")");
+                                    if tag_is_shared {
+                                        for q in &route.required_query_strings {
+                                            write!(cond, " && qs.has(\"{q}\")").unwrap();
+                                        }
+                                    }
+
+                                    g!("if {cond} {{");
                                     succ(route, true);
                                     g!("}}");
                                 }
